@@ -526,6 +526,10 @@ class JsonWebEncryption:
         obj = ensure_dict(obj, "JWE")
         obj = deepcopy(obj)
 
+        for member in ("protected", "aad", "iv", "ciphertext", "tag"):
+            if member in obj and not isinstance(obj[member], (str, bytes)):
+                raise DecodeError(f'Invalid "{member}" value')
+
         if "protected" in obj:
             protected = extract_header(to_bytes(obj["protected"]), DecodeError)
         else:
@@ -541,9 +545,6 @@ class JsonWebEncryption:
         for member in ("iv", "ciphertext", "tag"):
             if member not in obj:
                 raise DecodeError(f'Missing "{member}" value')
-        for member in ("protected", "aad", "iv", "ciphertext", "tag"):
-            if member in obj and not isinstance(obj[member], (str, bytes)):
-                raise DecodeError(f'Invalid "{member}" value')
 
         for recipient in recipients:
             if not isinstance(recipient, dict) or "encrypted_key" not in recipient:
